@@ -15,6 +15,7 @@ import SaramaVerif.Model.CodecSchemas
     dmset cz=<comp>:<raw>,… <hex>         → ok p=<0|1> o=<0|1> rest=<n> <block>… | err
     kind <hex>                  → legacy | default | none
     schema <Body> <ver> <tok>…  → <size> <hex> rt=ok   (schema interpreters size / enc / dec on the parsed value)
+    dschema <Body> <ver> <hex>  → <out>… off=<n>       (schema decoder on the real bytes, as decode-call results)
 -/
 namespace Driver.C09
 open Model.Codec Driver
@@ -190,6 +191,30 @@ def showBlock (b : Block) : String :=
 
 def cz (t : String) : String := (splitKV t '=').2
 
+/-- what the calls of a decode() return, in order, for a value of a schema (counts, then elements; `ok` for
+    tagged sections and push/pop) -/
+partial def flatOuts : Fmt → Nat → Val → List String
+  | .prim _, _, v => [showVal v]
+  | .unit, _, _ => []
+  | .seq a b, ver, .pair x y => flatOuts a ver x ++ flatOuts b ver y
+  | .seq _ _, _, _ => ["?"]
+  | .ite lo hi a b, ver, v => if lo ≤ ver ∧ ver ≤ hi then flatOuts a ver v else flatOuts b ver v
+  | .arr _ e, ver, .list vs => toString vs.length :: (vs.map (flatOuts e ver)).flatten
+  | .arr _ _, _, .null => ["-1"]
+  | .arr _ _, _, _ => ["?"]
+  | .len32 f, ver, v => "ok" :: flatOuts f ver v ++ ["ok"]
+  | .varlen f, ver, v => "ok" :: flatOuts f ver v ++ ["ok"]
+  | .crc _ f, ver, v => "ok" :: flatOuts f ver v ++ ["ok"]
+
+/-- `dschema`: the schema's decoder on the real bytes, printed as the results of the decode calls -/
+def dschemaAnswer (name : String) (ver : Nat) (bytes : Bytes) : String :=
+  match bodySchema name with
+  | none => "no-schema"
+  | some f =>
+    match dec f ver bytes with
+    | some (v, rest) => " ".intercalate (flatOuts f ver v ++ [s!"off={bytes.length - rest.length}"])
+    | none => "ERR"
+
 partial def valEq : Val → Val → Bool
   | .int a, .int b => a == b
   | .bytes a, .bytes b => a == b
@@ -268,6 +293,7 @@ def step (_ : Unit) (t : List String) : Unit × String :=
     (match parseAll parseTok ts with
      | none => ((), "bad-op")
      | some toks => ((), schemaAnswer name (nat! ver) toks))
+  | ["dschema", name, ver, hex] => ((), dschemaAnswer name (nat! ver) (hexBytes hex))
   | ["kind", hex] =>
     ((), match recordsKind (hexBytes hex) with
          | none => "none"
